@@ -206,12 +206,12 @@ def check_run(case, res, counters):
     for e in log.ev:
         if e[2] == 'FAULT':
             for did in e[5]:
-                failed_dicts[did] = failed_dicts.get(did, True) and bool(e[6])
+                failed_dicts[did] = failed_dicts.get(did, True) and e[6] == 'flatten'
     for did, (j, ref, d) in res.refs.items():
         if did in failed_dicts:
             counters['failed_element_signal_checks'] = counters.get('failed_element_signal_checks', 0) + 1
             if ref.triggers:
-                if failed_dicts[did] and any(sp['op'] == 'flatten' for sp in prog['nodes']):
+                if failed_dicts[did]:
                     add('C16:failed-element-signalled:deferred-failure-of-metadata-less-flatten-piece',
                         'element %s: a non-last piece produced by flatten (which carries no metadata) failed inside a '
                         'coroutine-style node, the failure was carried by a future, the last piece went through and '
